@@ -94,3 +94,18 @@ def delete (g : G) (sub : List Nat) : Except Err G := do
   pure { elems := g.elems.filter (· ∉ gone), refs := refs2 }
 
 end Capella.Delete
+
+namespace Capella.Delete
+
+/-- `_delete` as coded when the subtree continues in other fragment files: `iterdescendants_xt`
+follows the placeholders, so purge contexts are entered for **all** of `sub`, but
+`parent.remove(elm)` only detaches what hangs below the target in its own file (`localSub`);
+the members living in other fragment files stay loaded. With `localSub = sub` this is `delete`. -/
+def deleteAcrossFragments (g : G) (sub localSub : List Nat) : Except Err G := do
+  let exits ← enterAll g (reported g sub)
+  let refs1 := g.refs.filter (fun q => q.owner ∉ localSub ∧ q.carrier ∉ localSub)
+  let refs2 := exits.reverse.foldl (runExit sub) refs1
+  let gone := localSub ++ purgedCarriers exits
+  pure { elems := g.elems.filter (· ∉ gone), refs := refs2 }
+
+end Capella.Delete
